@@ -17,13 +17,20 @@ def pre_programs(tier: str, seed: int):
     out = [(pl, True, pre, "core") for pl, pre in G.core_preconditions()]
     n = 150 if tier == "quick" else 3000
     out += [(pl, c, t, "sampled") for pl, c, t in G.sampled_programs(seed * 7919 + 11, n, "pre")]
+    out += [(pl, c, t, "deep") for pl, c, t in G.deep_programs(seed, 40 if tier == "quick" else 800)]
     return out
 
 
 def eff_programs(tier: str, seed: int):
     out = [(pl, True, eff, "core") for pl, eff in G.core_effects()]
-    n = 110 if tier == "quick" else 2500
+    n = 110 if tier == "quick" else 700
     out += [(pl, c, t, "sampled") for pl, c, t in G.sampled_programs(seed * 104729 + 5, n, "eff")]
+    import random as _r
+    rng = _r.Random(seed * 17 + 3)
+    for _ in range(25 if tier == "quick" else 150):
+        pl = rng.choice(["P2", "P2", "P1", "P3"])
+        const = rng.random() < 0.5
+        out.append((pl, const, G.deep_when_effect(rng, G.PARAM_LISTS[pl], const), "deep"))
     return out
 
 
@@ -41,8 +48,8 @@ def applicable_tasks(tier: str, seed: int, cap=None) -> List[dict]:
 
 def apply_tasks(tier: str, seed: int, cap=None, orders=None) -> List[dict]:
     cap = cap or (8 if tier == "quick" else 11)
-    lim = 3 if tier == "quick" else 5
-    orders = orders if orders is not None else ([None, 1] if tier == "quick" else [None, 1, 2, 3, 4, 5])
+    lim = 3 if tier == "quick" else 4
+    orders = orders if orders is not None else ([None, 1] if tier == "quick" else [None, 1, 2, 3])
     rng = random.Random(seed + 17)
     tasks = []
     for pl, const, eff, origin in eff_programs(tier, seed):
@@ -57,6 +64,6 @@ def apply_tasks(tier: str, seed: int, cap=None, orders=None) -> List[dict]:
             for o in (orders if n_groups > 1 or len(eff) > 2 else orders[:1]):
                 tasks.append(_mk(text, args, "apply", render(eff) + ("" if pre == ["and"] else "  PRE " + render(pre)),
                                  cap=cap, origin=origin, const=const, order=o,
-                                 max_paths=1500 if tier == "quick" else 20000,
+                                 max_paths=1500 if tier == "quick" else 6000,
                                  timeout_ms=4000 if tier == "quick" else 20000))
     return tasks
